@@ -22,10 +22,33 @@ from __future__ import annotations
 import ast
 
 from ..loader import dotted, norm
-from ..paths import Walker, truth
+from ..paths import Const, Walker, truth
 
 TAL_ORDER = ["TAL_DEFINE", "TAL_CONDITION", "TAL_REPEAT", "TAL_CONTENT", "TAL_REPLACE", "TAL_ATTRIBUTES", "TAL_OMITTAG"]
 PARSE_ONLY = {"TAL_REPLACE", "METAL_FILL_SLOT", "METAL_DEFINE_MACRO"}
+
+
+def saved_names(prog, interp, m):
+    """Names of the self attributes a push/pop method saves or restores (tuple of attributes, or a constant name table
+    driven by getattr/setattr)."""
+    from ..paths import NOCONST, const_value
+
+    out = set()
+    for n in ast.walk(m.node):
+        if isinstance(n, ast.Tuple) and n.elts and all(isinstance(e, ast.Attribute) and dotted(e.value) == "self" for e in n.elts if not isinstance(e, ast.Name)):
+            out |= {e.attr for e in n.elts if isinstance(e, ast.Attribute)}
+        # [getattr(self, name) for name in TABLE] / for name, value in zip(TABLE, vars): setattr(self, name, value)
+        if isinstance(n, (ast.ListComp, ast.GeneratorExp)) and len(n.generators) == 1 and isinstance(n.elt, ast.Call) and dotted(n.elt.func) == "getattr":
+            v = const_value(prog, n.generators[0].iter, m, interp)
+            if v is not NOCONST and isinstance(v, tuple):
+                out |= {x for x in v if isinstance(x, str)}
+        if isinstance(n, ast.For) and isinstance(n.iter, ast.Call) and dotted(n.iter.func) == "zip" and n.iter.args \
+                and any(isinstance(x, ast.Call) and dotted(x.func) == "setattr" for x in ast.walk(n)):
+            v = const_value(prog, n.iter.args[0], m, interp)
+            if v is not NOCONST and isinstance(v, tuple):
+                out |= {x for x in v if isinstance(x, str)}
+    return out
+
 
 
 def handler_table(cls, attr="commandHandler"):
@@ -55,6 +78,8 @@ def check(ctx, rep):
     rep.rule("R17h", "repeat variables and locals are scoped by stack: each loop saves the repeat map and restores it when it ends", floor=1)
     rep.rule("R17i", "`attrs` is the current element's original attributes at every evaluation: handlers pass self.originalAttributes, "
              "Context.evaluate binds it before evaluating, nothing else binds it", floor=3)
+    rep.rule("R17j", "every pass of a repeat starts from the element's initial state: on re-entry cmdRepeat re-establishes each register that the "
+             "commands ordered after tal:repeat (content, attributes, omit-tag) can change", floor=1)
     rep.rule("R17g", "keyword discriminators of one if/elif chain index the same position", floor=1)
     mod = prog.modules.get("simpletal.simpleTAL")
     tales = prog.modules.get("simpletal.simpleTALES")
@@ -347,6 +372,31 @@ def check(ctx, rep):
                     diff = [(x, y) for x, y in zip(fa, fb) if x != y][:2]
                     problems.append(f"{push} saves {len(fa)} fields, {pop} restores {len(fb)}; first differences {diff}: state leaks between elements")
         rep.add("R17d", f"{push} / {pop} agree", not problems, ctx.where(pm_) if pm_ else mod.relpath, "; ".join(problems), key=f"R17d|{label}")
+        # completeness: everything the nested run / the element can change is part of what is saved
+        if pm_ is not None and qm is not None:
+            from ..paths import NOCONST, const_value
+
+            names_saved = lambda m: saved_names(prog, interp, m)  # noqa: E731
+
+            def assigned(m):
+                return {n.attr for n in ast.walk(m.node) if isinstance(n, ast.Attribute) and isinstance(n.ctx, ast.Store) and dotted(n.value) == "self"}
+
+            saved, restored = names_saved(pm_), names_saved(qm) | (assigned(qm) if label == "scope" else set())
+            if label == "program":
+                cs = interp.methods.get("cleanState")
+                need = (assigned(cs) if cs else set())
+                for hm in interp.methods.values():
+                    if hm.name.startswith("cmd"):
+                        need |= assigned(hm)
+                need -= {"commandList", "symbolTable", "programStack", "commandHandler", "file", "context"}
+            else:
+                # per-element state: what cmdStartScope resets for the new element
+                need = assigned(pm_) - {"programCounter"}
+            missing = sorted(need - saved)
+            rep.add("R17d", f"{push} saves every register a nested {'template run' if label == 'program' else 'element'} can change ({len(need)})", not missing,
+                    ctx.where(pm_), f"{missing} are changed by a nested {'run' if label == 'program' else 'element'} but not saved: their values leak back into the enclosing "
+                    f"{'template (e.g. the locals-defined flag: the enclosing element then never pops its locals)' if label == 'program' else 'element'}" if missing else "",
+                    key=f"R17d|{label}|complete")
 
     # ------------------------------------------------------------------ R17e
     for IC in interps:
@@ -464,6 +514,51 @@ def check(ctx, rep):
                     others.append((m2, n))
         rep.add("R17i", "no other code binds the `attrs` global", not others, ctx.where(others[0][0], others[0][1]) if others else ctx.where(ev),
                 f"{others[0][0].qualname} binds `attrs` itself: {norm(others[0][1])[:50]}" if others else "", key="R17i|single-binder")
+
+    # ------------------------------------------------------------------ R17j
+    rp = interp.methods.get(ihandlers.get("TAL_REPEAT", "cmdRepeat"))
+    if rp is None:
+        rep.fail("R17j", "cmdRepeat", detail="repeat handler not found")
+    else:
+        later = [op for op in TAL_ORDER[TAL_ORDER.index("TAL_REPEAT") + 1:] if op in ihandlers]
+        need = set()
+        for op in later:
+            hm = interp.methods.get(ihandlers[op])
+            if hm is not None:
+                need |= {n.attr for n in ast.walk(hm.node) if isinstance(n, ast.Attribute) and isinstance(n.ctx, ast.Store) and dotted(n.value) == "self"}
+        need -= {"programCounter"}
+        facts = {"self.repeatVariable is not None": Const(True), "self.repeatVariable is None": Const(False)}
+        wk = Walker(prog, ctx.resolver, assumptions=facts, sticky=set(facts), merge_loops=True,
+                    inline=lambda fn, t, d: d < 3 and t.bound_cls is not None and fn.cls is not None and fn.cls.module is rp.module and not fn.name.startswith("cmd"))
+        problems = set()
+        n_re = 0
+        for pth in wk.run(rp, interp, facts=dict(facts)):
+            if pth.kind == "raise":
+                continue
+            # a pass that goes on into the body again (the loop is not finished): program counter moves to the next command
+            finished = any(e.kind == "call" and isinstance(e.node.func, ast.Attribute) and e.node.func.attr in ("removeRepeat", "popLocals") for e in pth.events)
+            if finished:
+                continue
+            n_re += 1
+            est = set()
+            for e in pth.events:
+                if e.kind == "assign" and isinstance(e.target, str) and e.target.startswith("self.") and "[" not in e.target:
+                    est.add(e.target[5:])
+                if e.kind == "test" and e.extra is not None and isinstance(e.node, ast.Compare) and len(e.node.ops) == 1:
+                    # `if self.x != saved: self.x = copy(saved)`: found equal = already re-established
+                    l, r = norm(e.node.left), norm(e.node.comparators[0])
+                    equal = (isinstance(e.node.ops[0], ast.Eq) and e.extra) or (isinstance(e.node.ops[0], ast.NotEq) and not e.extra)
+                    if equal:
+                        for side in (l, r):
+                            if side.startswith("self.") and side.count(".") == 1:
+                                est.add(side[5:])
+            missing = sorted(need - est)
+            if missing:
+                problems.add(f"a later pass of the loop starts with {missing} as the previous pass left them (set by {[ihandlers[o] for o in later]}): "
+                             "e.g. once one item produced content, an item whose content is `default` comes out empty")
+        if not n_re:
+            problems.add("no path re-enters the loop body")
+        rep.add("R17j", f"{rp.qualname}: re-entry re-establishes {sorted(need)}", not problems, ctx.where(rp), "; ".join(sorted(problems)), key="R17j|repeat-reentry")
 
     # ------------------------------------------------------------------ R17g
     n_chain = 0
